@@ -640,6 +640,20 @@ impl Sim {
         self.emit(m);
         el
     }
+    /// Late-polling executor: time passes for the full d although callers may be runnable.
+    pub async fn advance_lazy(&mut self, d: u64) -> u64 {
+        for _ in 0..d {
+            tokio::time::advance(Duration::from_millis(1)).await;
+            self.settle().await;
+        }
+        let mut m = Sim::ev("advance");
+        m.insert("d".into(), json!(d));
+        m.insert("lazy".into(), json!(true));
+        m.insert("woken".into(), json!(Vec::<usize>::new()));
+        self.state_changed();
+        self.emit(m);
+        d
+    }
     /// Log a component-specific operation performed by the adapter.
     pub async fn op(&mut self, name: &str, res: Value, extra: Obj) {
         let mut m = Sim::ev("op");
